@@ -103,12 +103,22 @@ func hw(s string) net.HardwareAddr { m, _ := net.ParseMAC(s); return m }
 
 // lookup4 asks the real DHCPv4 handler about mac.
 func lookup4(h handler.Handler4, mac string) (ip string, stop bool, pan string) {
+	return lookup4cid(h, mac, nil)
+}
+
+// lookup4cid: a request from hardware address mac that also carries the client identifier cid
+// (option 61): the mapping served is the one of the hardware address.
+func lookup4cid(h handler.Handler4, mac string, cid []byte) (ip string, stop bool, pan string) {
 	defer func() {
 		if e := recover(); e != nil {
 			pan = fmt.Sprint(e)
 		}
 	}()
+	defer reg.OpBegin("static lease lookup for " + mac)()
 	p := pkt.V4{Op: 1, HType: 1, HLen: byte(len(hw(mac))), Xid: 0x10101010, Opts: []pkt.Opt4{{Code: 53, Data: []byte{1}}}}
+	if cid != nil {
+		p.Opts = append(p.Opts, pkt.Opt4{Code: 61, Data: cid})
+	}
 	copy(p.CHAddr[:], hw(mac))
 	req, err := dhcpv4.FromBytes(p.Bytes())
 	if err != nil {
@@ -220,6 +230,20 @@ func checkServed(r *ev.Run, proto int, h4 handler.Handler4, h6 handler.Handler6,
 			case !listed && (ip != "" || stop):
 				r.Violate(sigPrefix+"/v4-unlisted-served", fmt.Sprintf("MAC %s is not in the file but got yiaddr=%q stop=%v", m, ip, stop), c)
 				ok = false
+			}
+			// the same request carrying a client identifier that spells ANOTHER probe MAC
+			// (htype 1 + address, RFC 2132 9.14) or something opaque: still keyed by chaddr
+			for _, o := range probeMACs {
+				if o == m || len(hw(o)) != 6 || !ok {
+					continue
+				}
+				for _, cid := range [][]byte{append([]byte{1}, hw(o)...), append([]byte{0}, []byte("opaque-"+o)...)} {
+					ip2, stop2, pan2 := lookup4cid(h4, m, cid)
+					if pan2 != "" || ip2 != ip || stop2 != stop {
+						r.Violate(sigPrefix+"/v4-keyed-by-client-identifier", fmt.Sprintf("MAC %s with client identifier %x: yiaddr=%q stop=%v panic=%q; without it yiaddr=%q stop=%v", m, cid, ip2, stop2, pan2, ip, stop), c)
+						ok = false
+					}
+				}
 			}
 		} else {
 			if len(hw(m)) != 6 {
@@ -499,7 +523,7 @@ func run(r *ev.Run) {
 // spelling is the control: if even that one is not loaded within the budget, inotify does not
 // work here and nothing is concluded; otherwise a spelling whose update is never loaded (two
 // attempts of 15 s each, against milliseconds for the control) is a violation.
-var spellings = []string{"clean", "dot-segment", "double-slash", "dot-dot", "relative", "symlink-other-dir", "clean+atomic-replace"}
+var spellings = []string{"clean", "dot-segment", "double-slash", "dot-dot", "relative", "symlink-other-dir", "clean+atomic-replace", "clean+bad-then-good"}
 
 func spellingRuns(r *ev.Run) {
 	r.Rule("Binding runs with the real watcher, one process per spelling of the configured path {clean, dir/./f, dir//f, dir/sub/../f, ./f relative to the working directory, symlink into another directory} and, for the clean spelling, an atomic replacement (temporary file renamed over the lease file): a well-formed update is loaded (control-calibrated: verdicts only when the clean spelling loads).")
@@ -515,6 +539,8 @@ func spellingRuns(r *ev.Run) {
 			out := "died"
 			if i := strings.Index(res.Output, "@@SPELLING "); i >= 0 && !res.Hung {
 				out = strings.TrimSpace(strings.SplitN(res.Output[i+len("@@SPELLING "):], "\n", 2)[0])
+			} else if strings.Contains(res.Output, "@@HANG") {
+				out = "lookup-blocked" // the operation watchdog stopped a lookup that never returned
 			}
 			mu.Lock()
 			got[sp] = out
@@ -531,6 +557,12 @@ func spellingRuns(r *ev.Run) {
 		return
 	}
 	for _, sp := range spellings {
+		if got[sp] == "lookup-blocked" {
+			r.Violate("C10/binding/lookup-blocked/"+sp, fmt.Sprintf("lease file (%s) with autorefresh: after the updates a lookup through the handler never returned (stopped by the 30 s operation watchdog) while the control run answered at once", sp), map[string]interface{}{"spelling": sp})
+		}
+		if got[sp] == "bad-update-changed-table" {
+			r.Violate("C10/binding/bad-update-changed-table/"+sp, "real watcher: a malformed update (appended line) changed the served mapping", map[string]interface{}{"spelling": sp})
+		}
 		if got[sp] == "never-loaded" {
 			r.Violate("C10/binding/update-never-loaded/"+sp, fmt.Sprintf("lease file configured as a %s path with autorefresh: a well-formed rewrite was not loaded within 2 x 15 s although the same rewrite under the clean spelling was loaded at once", sp), map[string]interface{}{"spelling": sp})
 		}
@@ -587,6 +619,31 @@ func spellingWorker(r *ev.Run, sp string) {
 		dl := time.Now().Add(15 * time.Second)
 		for time.Now().Before(dl) {
 			if served(goodTables[4]["good2"]) {
+				if sp == "clean+bad-then-good" {
+					// a malformed update (one append: no truncation window) must leave the table
+					// alone, and the NEXT well-formed update must still be loaded and lookups
+					// must still be answered (every lookup is under the operation watchdog)
+					if fh, err := os.OpenFile(real, os.O_APPEND|os.O_WRONLY, 0o644); err == nil {
+						fh.WriteString("\n" + macB)
+						fh.Close()
+					}
+					time.Sleep(300 * time.Millisecond)
+					if !served(goodTables[4]["good2"]) {
+						fmt.Println("@@SPELLING bad-update-changed-table")
+						return
+					}
+					os.WriteFile(real, []byte(contents[4]["good1"]), 0o644)
+					dl2 := time.Now().Add(20 * time.Second)
+					for time.Now().Before(dl2) {
+						if served(goodTables[4]["good1"]) {
+							fmt.Println("@@SPELLING loaded")
+							return
+						}
+						time.Sleep(10 * time.Millisecond)
+					}
+					fmt.Println("@@SPELLING never-loaded")
+					return
+				}
 				if sp != "clean+atomic-replace" {
 					fmt.Println("@@SPELLING loaded")
 					return
